@@ -139,6 +139,24 @@ func runAlloc(fields []string) string {
 			for _, h := range []string{"[::1]", "::1", "[::1]:8080", "[fe80::1%25en0]:80", "localhost:", "example.com.:443"} {
 				measure(newReq(p[0], h, p[2]), "+host", p)
 			}
+			// successive requests with DIFFERENT Host headers (ports, trailing dots): whatever is remembered about the
+			// previous request's Host must not cost an allocation when the next one differs
+			var reqs []*http.Request
+			for _, h := range []string{"a.example.com:8080", "b.example.com:8081", "c.example.com.", p[1], p[1] + ":8443"} {
+				rq := newReq(p[0], h, p[2])
+				served = 0
+				f.ServeHTTP(w, rq)
+				if served > 0 { // only requests a route serves are measured
+					reqs = append(reqs, rq)
+				}
+			}
+			if len(reqs) >= 2 {
+				turn := 0
+				extra("+althost", p, func() {
+					f.ServeHTTP(w, reqs[turn%len(reqs)])
+					turn++
+				})
+			}
 		}
 	}
 	res := "I=" + strings.Join(out, "|") + "\tT=maxparams-" + strconv.Itoa(int(mp)) + "\tN=" + strconv.Itoa(min(1, measured))
